@@ -14,6 +14,7 @@ type Config struct {
 	Actors  []ActorCfg      `json:"actors"`
 	Oracles map[string]bool `json:"oracles"`
 	Faults  map[string]bool `json:"faults,omitempty"` // enabled fault kinds (informational; the events carry them)
+	Count   bool            `json:"count,omitempty"`  // report the database commands issued per exchange event (base scenarios of the systematic placement)
 }
 
 // MongoFault places a fault on the k-th database command issued while serving an exchange.
